@@ -42,7 +42,12 @@ func TestVerifC09Race(t *testing.T) {
 		rm := &RegistrationManager{RegConfig: conf, RegistrationStats: newRegistrationStats(), registeredDecoys: NewRegisteredDecoys(),
 			Logger: log.New(&bytes.Buffer{}, "[REG] ", 0), LivenessTester: c09RaceTester{}}
 		w.rm = rm
+		// alternate between a roomy subnet and one with four addresses, where registrations of
+		// different clients share phantoms (the per-phantom tables then have several entries)
 		sel, err := c09PhantomSelector()
+		if it%2 == 1 {
+			sel, err = c09PhantomSelectorFor("192.0.2.0/30", "2001:db8::/126")
+		}
 		if err != nil {
 			t.Fatal(err)
 		}
@@ -58,13 +63,19 @@ func TestVerifC09Race(t *testing.T) {
 		go func() { // publisher with duplicates
 			defer bg.Done()
 			for i := 0; i < 30; i++ {
-				regChan <- w.message(i%5, "203.0.113.7:443")
+				regChan <- w.message(i%11, "203.0.113.7:443")
 			}
 		}()
 		go func() { // connection handler
 			defer bg.Done()
-			for i := 0; i < 30; i++ {
-				ph := net.IPv4(192, 0, 2, byte(i%256)).To4()
+			// every address of the phantom subnet, several times: the handler looks at the phantoms
+			// that registrations are being made on while they are being made
+			span := 256
+			if it%2 == 1 {
+				span = 4
+			}
+			for i := 0; i < 3*256; i++ {
+				ph := net.IPv4(192, 0, 2, byte(i%span)).To4()
 				rm.CountRegistrations(ph)
 				for _, rg := range rm.GetRegistrations(ph) {
 					rm.MarkActive(rg.(*DecoyRegistration))
